@@ -906,3 +906,63 @@ def translate_relay(spec, fdecl, src, consts, U, root):
             f"def nRearm : Nat := {sum(1 for x in t.sites if 'd->pending = FALSE' in x)}",
             "", "end Nice.Gen." + spec["lean_ns"], ""]
     return "\n".join(out), {"sites": len(t.sites)}
+
+
+# ---------------------------------------------------------------------------------------------------------------------
+# a decision guard as a Lean Bool function: the `if` of stun/usages/ice.c stun_usage_ice_conncheck_create_reply whose
+# then-branch switches the role (`*control = !*control`) — C01's role-conflict rule
+# ---------------------------------------------------------------------------------------------------------------------
+def translate_role_guard(fdecl, src, U):
+    class X(T):
+        def __init__(self):
+            self.src = src
+    x = X()
+    norm = lambda n: re.sub(r"\s+", "", x.text(n, 300))
+    body = [c for c in kids(fdecl) if c.get("kind") == "CompoundStmt"][0]
+    cands = []
+    for n in walk(body):
+        if n.get("kind") == "IfStmt" and len(kids(n)) >= 2:
+            sw = [y for y in walk(kids(n)[1]) if y.get("kind") == "BinaryOperator" and y.get("opcode") == "=" and norm(y) == "*control=!*control"]
+            inner_ifs = [y for y in walk(kids(n)[1]) if y.get("kind") == "IfStmt"]
+            if sw and not inner_ifs:
+                cands.append(n)
+    if len(cands) != 1:
+        raise U(f"expected exactly one `if` whose then-branch switches the role, found {len(cands)}")
+    the_if = cands[0]
+    if len(kids(the_if)) != 3:
+        raise U("the role-switching if has no else branch")
+    atoms = {"tie": "tie", "q": "q"}
+
+    def ex(e):
+        e = strip(e)
+        k = e.get("kind")
+        if k == "BinaryOperator" and e.get("opcode") in ("&&", "||"):
+            return f"({ex(e['inner'][0])} {e['opcode']} {ex(e['inner'][1])})"
+        if k == "BinaryOperator" and e.get("opcode") in ("<", "<=", ">", ">=", "==", "!="):
+            op = {"<": "<", "<=": "≤", ">": ">", ">=": "≥", "==": "=", "!=": "≠"}[e["opcode"]]
+            return f"decide ({val(e['inner'][0])} {op} {val(e['inner'][1])})"
+        if k == "UnaryOperator" and e.get("opcode") == "!":
+            return f"(!{ex(e['inner'][0])})"
+        if k == "UnaryOperator" and e.get("opcode") == "*" and norm(e) == "*control":
+            return "control"
+        raise U("role guard: expression not understood: " + x.text(e))
+
+    def val(e):
+        e = strip(e)
+        if e.get("kind") == "DeclRefExpr" and e["referencedDecl"]["name"] in atoms:
+            if "long" not in e.get("type", {}).get("qualType", "") and "uint64" not in e.get("type", {}).get("qualType", ""):
+                raise U("role guard: tie-breakers are not 64-bit unsigned")
+            return atoms[e["referencedDecl"]["name"]]
+        raise U("role guard: operand not understood: " + x.text(e))
+    # what the else-branch does: must return the role-conflict status after building a 487 (no role change)
+    els = kids(the_if)[2]
+    if any(norm(y).startswith("*control=") for y in walk(els) if y.get("kind") == "BinaryOperator" and y.get("opcode") == "="):
+        raise U("the else-branch of the role-switching if also writes the role")
+    if not any(y.get("kind") == "ReturnStmt" for y in walk(els)):
+        raise U("the else-branch of the role-switching if does not return")
+    return ("/- GENERATED by tools/extract_flow.py from stun/usages/ice.c stun_usage_ice_conncheck_create_reply — do not edit.\n"
+            "   The guard of the `if` whose then-branch switches the role (`*control = !*control`); its else-branch keeps the role\n"
+            "   and returns after building the 487 answer (checked by the translator).  tie = our tie-breaker, q = the peer's. -/\n"
+            "namespace Nice.Gen.RoleConflict\n\n"
+            f"def switches (tie q : UInt64) (control : Bool) : Bool :=\n  {ex(kids(the_if)[0])}\n\n"
+            "end Nice.Gen.RoleConflict\n")
